@@ -22,6 +22,13 @@ pub use provenance::{Narrowings, Provenance};
 pub use scopes::{Binding, Parameter, Scope, ScopeKind};
 pub use typing::{TupleAccessor, TypeAliasDef, resolve_type_alias_for_display, union_type_ids};
 
+/// Verification hook (cargo feature `verif`, off by default): re-exports the narrowing helpers so
+/// they can be called directly on a `Program`.
+#[cfg(feature = "verif")]
+pub mod verif {
+    pub use super::narrowing::{compute_complement, intersect_types};
+}
+
 use crate::{
     ast,
     parser::SourceSpan,
